@@ -366,6 +366,7 @@ SpecsDualReq(s) ==
     V6First(Sp("LB", "dual", "R", "", {"tcp80"}, "Cluster", "x", <<>>, "")) }
 SpecsPrefer(s) ==
   { Plain, Sp("LB", "dual", "P", "", {"tcp80"}, "Cluster", "x", <<>>, ""),
+    Sp("LB", "v4", "P", "", {"tcp80"}, "Cluster", "x", <<>>, ""),      \* PreferDualStack on a single-stack cluster (one clusterIP)
     V6First(Sp("LB", "dual", "P", "", {"tcp80"}, "Cluster", "x", <<>>, "")),
     V6First(Sp("LB", "dual", "R", "", {"tcp80"}, "Cluster", "x", <<>>, "")) }
 InitInnocent == [s \in {"s1"} |-> Innocent]
